@@ -71,13 +71,17 @@ structure ImplObs where
   crashed : Bool        -- the connect call panicked or never returned
   writes : List Write
   permanent : Bool := false   -- failed with a permanent ConnError
+  sess : Option Sess := none  -- the client's session afterwards
 
 def parseImpl (s : String) : Option ImplObs := do
   let m := kv (s.splitOn " ")
   let out ← m.lookup "out"
   let w ← m.lookup "w"
   let ws ← (if w.isEmpty then some [] else (w.splitOn ",").mapM parseWrite)
-  pure ⟨out == "established", out == "panic" || out == "hang", ws, out == "failed:true"⟩
+  let sess : Option Sess := match (m.lookup "sess").map (·.splitOn ",") with
+    | some [p, i, n, j, q] => (do pure ⟨← parseBool p, ← decStr i, ← n.toNat?, ← decStr j, ← parseBool q⟩)
+    | _ => none
+  pure ⟨out == "established", out == "panic" || out == "hang", ws, out == "failed:true", sess⟩
 
 structure DSt where
   cfg : Cfg
@@ -125,17 +129,28 @@ def stepWith (which : Which) (d : DSt) (fields : List String) (impl : String) : 
     let r := negotiate d.cfg d.sess sc
     let ms := showResult r
     let io := parseImpl impl
-    let spec (est : Bool) (ws : List Write) (perm : Bool := false) : Bool :=
+    -- "the session continues without a new bind, keeping its identity, counters and held stanzas": a connection
+    -- established without a bind (= resumed) leaves the session with the id, count and bound JID it had
+    let keepsIdentity (est : Bool) (ws : List Write) (after : Option Sess) : Bool :=
+      !(est && !(ws.any fun w => w.kind == .bind) && d.sess.present) ||
+      (match after with
+       | some a => a.smId == d.sess.smId && a.inbound == d.sess.inbound && a.bindJid == d.sess.bindJid
+       | none => false)
+    let spec (est : Bool) (ws : List Write) (perm : Bool := false) (after : Option Sess := none) : Bool :=
       match which with
       | .c03 => (est == completes d.cfg d.sess sc) && orderOk (ws.map (·.kind))
       | .c04 => gateOk d.cfg ws &&
           -- secure writes only after a verified handshake
           (ws.all fun w => !w.secure || (hsOk && Model.C04.startTLSOk tcfg cert))
-      | .c11 => holdsC11 d.sess sc ws
+      | .c11 => holdsC11 d.sess sc ws && keepsIdentity est ws after &&
+          -- "on reconnect the client asks to resume with the session id it obtained": where the negotiation reaches
+          -- that step holding an id (the model's writes say so), a well-formed <resume/> is on the wire
+          (!(r.writes.any fun w => match w.kind with | .resume _ _ => true | _ => false) ||
+            (ws.any fun w => match w.kind with | .resume _ _ => true | _ => false))
       | .c14 => authGateOk sc est ws && mechGateOk sc ws && failurePermanentOk sc ws perm
-    let okM := spec (r.outcome == .established) r.writes (r.outcome == .failed true)
+    let okM := spec (r.outcome == .established) r.writes (r.outcome == .failed true) (some r.sess)
     let okI := match io with
-      | some o => !o.crashed && spec o.established o.writes o.permanent
+      | some o => !o.crashed && spec o.established o.writes o.permanent o.sess
       | none => false
     ({ d with sess := r.sess }, ⟨ms, ms == impl, okM, okI, "-"⟩)
   | _ => (d, .bad)
